@@ -12,7 +12,7 @@ proof file, so the build dependency closure already attributes a broken callee t
 """
 TABLES = "Props/C03_tables.v"      # the prefix / mask dictionaries the network parser, NOHOST and the netmask setter look things up in
 CALLEE_TIES = {
-    "C02": [TABLES],
+    "C02": [TABLES, "Props/C03_src.v"],       # "every network": the constructor / parser that builds it
     "C14": [],
     # SubnetSplitter: cidr_merge (py_cidr_merge), list(cidr.subnet(..)) (py_list_subnet); cidr_exclude is reached translated
     "C20": ["Props/C05_src_merge.v", "Props/C11_src_subnet.v"],
